@@ -10,9 +10,9 @@ PID = "C12"
 TRANSLATE = True
 # regenerated on every run from transforms/geometry.py (the transform classes: constructors, __call__, apply, TranslateOrigin.transform), utils/transforms.py
 # (the matrix builders, a second time, through the imperative translator), core/swc.py (xyz / xyzw) and transforms/base.py (Transforms.__call__)
-TRANSLATE_ALGO = ["AlgoAffine"]
-DRIVER_FILES = ["SwcVerif/Model/AlgoRunAffine.lean", "SwcVerif/Model/PyAffine.lean"]
-LEAN_MODS = ["SwcVerif.Props.C12", "SwcVerif.Props.C12Gen"]
+TRANSLATE_ALGO = ["AlgoAffine", "AlgoRodrigues"]
+DRIVER_FILES = ["SwcVerif/Model/AlgoRunAffine.lean", "SwcVerif/Model/PyAffine.lean", "SwcVerif/Model/AlgoRunRodrigues.lean", "SwcVerif/Model/PyRodrigues.lean"]
+LEAN_MODS = ["SwcVerif.Props.C12", "SwcVerif.Props.C12Gen", "SwcVerif.Props.C12Rodrigues"]
 THEOREMS = [
     "C12.translate_moves", "C12.translate_origin_root", "C12.scale_origin", "C12.scale_about_root",
     "C12.scale_root_fixed", "C12.rotate_root_fixed", "C12.rotate_axis_isometry", "C12.rotate_axis_isometry_origin",
@@ -30,6 +30,11 @@ THEOREMS = [
     "C12.callFn_affine", "C12.generated_translate_moves", "C12.generated_translate_origin", "C12.generated_scale",
     "C12.generated_scale_root_fixed", "C12.generated_rotate_axis", "C12.generated_rotate", "C12.rotMap_axis_rigid",
     "C12.rotMap_rodrigues_rigid", "C12.generated_pipeline", "C12.generated_two_steps", "C12.generated_inverse_restores",
+    # rotate3d (Rodrigues) / _to_homogeneous / model_view_transformation / orthographic_projection_simple as translated (Gen/AlgoRodrigues.lean)
+    "RefineRodrigues.rotate3d_refines", "RefineRodrigues.rotate3d_short", "RefineRodrigues.ortho_simple_refines",
+    "RefineRodrigues.to_homogeneous2_fill", "RefineRodrigues.to_homogeneous2_pass", "RefineRodrigues.to_homogeneous2_error",
+    "RefineRodrigues.model_view_refines", "C12.generated_rotate_rodrigues", "C12.rodrigues_generated_rigid", "C12.rodrigues_generated_z",
+    "C12.model_view_position", "C12.viewRot_orthonormal",
 ]
 TRUSTED = ["imperative translator harness/translate_algo.py + algo_specs/18_affine.py (Gen/AlgoAffine.lean regenerated from transforms/geometry.py, utils/transforms.py, "
            "core/swc.py::xyz/xyzw, transforms/base.py::Transforms.__call__ on every run; its trusted glue is listed in the header of 18_affine.py: a tree is its seven "
@@ -831,7 +836,12 @@ class Matrices(Suite):
     def lines(self, case, res):
         if "exc" in res:
             return []
-        return [(f"mat kind={case['kind']} a={','.join(repr(float(v)) for v in case['a'])}", {"approx": res["m"], "rtol": 1e-6, "atol": 1e-6})]
+        out = [(f"mat kind={case['kind']} a={','.join(repr(float(v)) for v in case['a'])}", {"approx": res["m"], "rtol": 1e-6, "atol": 1e-6})]
+        if case["kind"] == "rot":
+            # the GENERATED `rotate3d` (imperative translator, Gen/AlgoRodrigues.lean) on the same axis and angle
+            out.append((f"grod n={','.join(repr(float(v)) for v in case['a'][:3])} theta={float(case['a'][3])!r}",
+                        {"approx": res["m"], "rtol": 1e-6, "atol": 1e-6}))
+        return out
 
     def oracle(self, case, res):
         if "exc" in res:
@@ -853,7 +863,65 @@ class Matrices(Suite):
         return []
 
 
-SUITES = [Affine(), Pipeline(), Matrices()]
+class Camera(Suite):
+    """the generated `_to_homogeneous`, `model_view_transformation`, `orthographic_projection_simple` (Gen/AlgoRodrigues.lean) against the
+    real functions; data are small dyadic numbers (exact in float32)"""
+    name = "c12.camera"
+
+    def cases(self, rng, tier, widen):
+        out = [{"class": "ortho", "kind": "ortho"}]
+        d = lambda: rng.randint(-64, 64) / 8
+        for k in range(8 if tier == "quick" else 40):
+            cols = [3, 3, 4, 3, 2, 5][k % 6]
+            out.append({"class": f"hom-{cols}", "kind": "hom", "rows": [[d() for _ in range(cols)] for _ in range(rng.randint(1, 5))],
+                        "w": float(k % 2)})
+            vec = lambda: [d(), d(), rng.choice([1, 2, 3]) / 2]
+            out.append({"class": "mview", "kind": "mview", "pos": [d(), d(), d()], "look": vec(), "up": vec()})
+        out.append({"class": "mview-short", "kind": "mview", "pos": [1.0, 2.0], "look": [0.0, 0.0, 1.0], "up": [0.0, 1.0, 0.0]})
+        return out
+
+    def run(self, case):
+        from swcgeom.utils import transforms as T
+
+        if case["kind"] == "ortho":
+            m = T.orthographic_projection_simple()
+        elif case["kind"] == "hom":
+            m = T._to_homogeneous(np.array(case["rows"], dtype=np.float64), case["w"])
+        else:
+            m = T.model_view_transformation(tuple(case["pos"]), tuple(case["look"]), tuple(case["up"]))
+        m = np.asarray(m, dtype=np.float64)
+        return {"shape": list(m.shape), "m": m.flatten().tolist()}
+
+    def lines(self, case, res):
+        exc = "exc" in res
+        fl = lambda v: ",".join(repr(float(x)) for x in v)
+        if case["kind"] == "ortho":
+            return [("gortho", "E" if exc else {"approx": res["m"], "rtol": 0, "atol": 0})]
+        if case["kind"] == "hom":
+            line = f"ghom rows={';'.join(fl(r) for r in case['rows'])} w={case['w']!r}"
+            return [(line, "E" if exc else {"approx": res["shape"] + res["m"], "rtol": 1e-12, "atol": 1e-12})]
+        ng, nt = float(np.linalg.norm(case["look"])), float(np.linalg.norm(case["up"]))
+        line = f"gmview pos={fl(case['pos'])} look={fl(case['look'])} up={fl(case['up'])} ng={ng!r} nt={nt!r}"
+        return [(line, "E" if exc else {"approx": res["m"], "rtol": 1e-5, "atol": 1e-5})]
+
+    def oracle(self, case, res):
+        if "exc" in res:
+            ok = (case["kind"] == "hom" and len(case["rows"][0]) not in (3, 4)) or case["class"] == "mview-short"
+            return [] if ok else [(f"{case['kind']}-raises", f"{case['kind']} raised {res['exc']}: {res.get('msg')}")]
+        M = np.array(res["m"], dtype=np.float64).reshape(res["shape"])
+        if case["kind"] == "mview":
+            # the camera position goes to the origin
+            got = M @ np.array(case["pos"] + [1.0])
+            if not np.allclose(got, [0, 0, 0, 1], atol=1e-4 * (1 + np.abs(case["pos"]).max())):
+                return [("mview-position", f"model_view_transformation({case['pos']}, {case['look']}, {case['up']}) maps the camera position to {got.tolist()}")]
+        if case["kind"] == "hom" and len(case["rows"][0]) == 3:
+            exp = np.hstack([np.array(case["rows"]), np.full((len(case["rows"]), 1), case["w"])])
+            if M.shape != exp.shape or not np.array_equal(M, exp):
+                return [("hom-fill", f"_to_homogeneous({case['rows']}, {case['w']}) = {M.tolist()}")]
+        return []
+
+
+SUITES = [Affine(), Pipeline(), Matrices(), Camera()]
 
 TECHNIQUE = "Lean 4 theorems (ring / linear_combination over an ordered field) about matrices and the centre conjugation REGENERATED from the Python source by an AST translator on every run + Float cross-check of the generated terms + direct oracle of the stated map"
 LEVEL_TEXT = ("Kernel-checked for all vectors, scale factors, unit axes and angles (through c²+s²=1) and all node / root positions: the generated "
